@@ -1,6 +1,8 @@
 """tdms_segment.TdmsSegment.read_segment_objects and helpers against spec.inherit.denote (C02, C01 O4)."""
+import ast
 import z3
 from pyvc.harness import harness
+from pyvc.interp import LoopSpec
 from pyvc.models import SFile, SBytes, SymStr, fresh_str
 from pyvc.interp import ProgExc
 from pyvc.interp import Obj
@@ -580,3 +582,268 @@ def _reuse_previous_segment_metadata(vc):
               prev.ordered_objects is lst and prev.object_index is index, kind="frame")
     vc.ensure("chunks-recomputed-once-after-the-list-is-set",
               st.ghost.get("calculated", 0) == 1 and st.ghost["calc_list_obj"] is lst)
+
+
+# ---------------------------------------------------------------------------- the loop over the listed objects, unbounded
+#
+# read_segment_objects when the segment starts a new object list (kTocNewObjList, or the first segment): the loop
+# over the listed objects is cut by an inductive invariant, so the NUMBER OF LISTED OBJECTS IS UNBOUNDED.  Iteration k
+# (arbitrary) must read exactly entry k at ENTRY(k), append exactly one object - the one spec.inherit.denote gives
+# for that entry - overwrite nothing, reject 'same as before' for a path never seen, and key the entry's properties
+# by its path.  ENTRY(k+1) is defined as the end of entry k's property block.
+
+ENTRY = z3.Function("ENTRY", z3.IntSort(), z3.IntSort())
+KNOWN_NV = z3.Function("KNOWN_NV", z3.IntSort(), z3.IntSort())
+
+
+class AbsPrevMap(object):
+    """previous_segment_objects (path -> most recent object) of any size: membership of the looked-up path is a
+    free boolean per iteration, the object found has that path and free fields"""
+    _absent = ()
+
+    def __init__(self, vc):
+        self.vc = vc
+        self.lookups = []          # (path, known, obj)
+        self.idx_of = {}
+        self.snap_of = {}
+
+    def _entry(self, path):
+        for (p, known, o) in self.lookups:
+            if p is path:
+                return known, o
+        n = len(self.lookups)
+        known = self.vc.st.fresh_bool("known%d" % n)
+        o = mk_segobj(self.vc, path, sym.fresh_name("remembered"))
+        self.idx_of[id(o)] = view(o)[2]
+        self.snap_of[id(o)] = snapshot(o)
+        self.lookups.append((path, known, o))
+        return known, o
+
+    def __contains__(self, path):
+        return self._entry(path)[0]
+
+    def __getitem__(self, path):
+        known, o = self._entry(path)
+        if bool(known):
+            return o
+        raise ProgExc(KeyError, "path")
+
+    def __setitem__(self, k, v):
+        raise ProgExc(AssertionError, "read_segment_objects must not modify the reader's map")
+
+
+class PropMap(object):
+    """the returned properties dictionary after some iterations: earlier content abstract, stores recorded"""
+    _absent = ()
+
+    def __init__(self):
+        self.stores = []
+
+    def __setitem__(self, k, v):
+        self.stores.append((k, v))
+
+
+def _list_len(lst):
+    if isinstance(lst, list):
+        return len(lst)
+    return lst.n0 + len(lst.appends)
+
+
+def _setup_loop(interp):
+    _setup(interp)
+
+    def read_object_properties(interp_, f, args, kwargs):
+        """contract of _read_object_properties (harness read_property): consumes the property block at the cursor;
+        returns a list of properties or None (free choice); the end of the block is where the next entry starts"""
+        st = sym.get_state()
+        seg, file, order = args
+        pos = file.pos
+        adv = st.fresh_int("proplen")
+        st.assume(adv >= 4)
+        file.pos = pos + adv
+        g = st.ghost.get("iter")
+        tok = None
+        if st.fresh_bool("has_props"):
+            tok = [("props-at", pos)]
+        if g is not None:
+            g["prop_reads"].append((pos, order, tok))
+            st.assume(_lift(ENTRY(sym.z3int(g["k"] + 1))) == pos + adv)       # definition of ENTRY(k+1)
+        return tok
+
+    interp.contracts_at_calls["nptdms.tdms_segment:TdmsSegment._read_object_properties"] = read_object_properties
+
+    def havoc_properties(st, env):
+        # heap locations the loop modifies are havocked together with the local: the object list and the cursor
+        g = st.ghost["loop"]
+        seg = env.vars["self"]
+        lst = SlotList()
+        lst.n0 = st.fresh_int("objects_so_far")
+        st.assume(lst.n0 >= 0)
+        seg._f["ordered_objects"] = lst
+        g["list"] = lst
+        g["file"].pos = st.fresh_int("cursor")
+        g["file"].reads = []
+        st.ghost["index_reads"] = []
+        if st.fresh_bool("some_properties_seen"):
+            pm = PropMap()
+            g["propmap"] = pm
+            return pm
+        g["propmap"] = None
+        return None
+
+    def on_iter(env, k, st):
+        g = st.ghost["loop"]
+        f = g["file"]
+        big = g["big"]
+        cur = f.pos
+        plen = uint(SBytes(f.content, cur, 4), 0, 4, big)
+        path = SBytes(f.content, cur + 4, plen).decode("utf-8")
+        hpos = cur + 4 + plen
+        header = uint(SBytes(f.content, hpos, 4), 0, 4, big)
+        st.ghost["iter"] = dict(k=k, path=path, header=header, after_header=hpos + 4, prop_reads=[], start=cur)
+
+    def inv(env, k, st):
+        g = st.ghost["loop"]
+        seg = env.vars["self"]
+        lst = seg.ordered_objects
+        f = g["file"]
+        props = env.vars["properties"]
+        out = [("cursor-at-the-start-of-entry-k", f.pos == _lift(ENTRY(sym.z3int(k)))),
+               ("one-object-per-listed-entry-so-far", _list_len(lst) == k),
+               ("no-slot-of-the-list-overwritten", isinstance(lst, list) or len(lst.stores) == 0),
+               ("properties-none-or-a-map", props is None or isinstance(props, (dict, PropMap)))]
+        it = st.ghost.get("iter")
+        if it is not None and isinstance(lst, SlotList) and len(lst.appends) == 1 and not it.get("checked"):
+            it["checked"] = True
+            out.extend(_iteration_post(g, it, lst.appends[0], props, st))
+        return out
+
+    def _iteration_post(g, it, got, props, st):
+        interp_ = interp
+        res = []
+        prevmap = g["prevmap"]
+        path, header, after_header = it["path"], it["header"], it["after_header"]
+        order = ">" if g["big"] else "<"
+        full = (_lift(z3.Function("IDX_NV", z3.IntSort(), z3.IntSort())(sym.z3int(after_header))),
+                _lift(z3.Function("IDX_SIZE", z3.IntSort(), z3.IntSort())(sym.z3int(after_header))),
+                TypeTok(_lift(z3.Function("IDX_TYPE", z3.IntSort(), z3.IntSort())(sym.z3int(after_header)))))
+        # what the reader remembers for this path: decided by the lookups the code made; a path the code never
+        # looked up would be a dispatch error, reported below
+        looked = [(p, kn, o) for (p, kn, o) in prevmap.lookups if interp_.truth(interp_.compare(ast.Eq, p, path))]
+        res.append(("the-reader's-memory-is-consulted-for-this-entry's-path", len(looked) >= 1))
+        if not looked:
+            return res
+        (_, known, kobj) = looked[-1]
+        last = [(path, prevmap.idx_of[id(kobj)])] if interp_.truth(known) else []
+        try:
+            exp = INH.denote([], last, False, [(path, header, full)])[0]
+        except INH.Invalid:
+            res.append(("reuse-of-undefined-index-is-rejected", False))
+            return res
+        (epath, ehas, eidx) = exp
+        res.append(("appended-object/path", got.path == epath))
+        res.append(("appended-object/has-data", got.has_data == ehas))
+        if eidx is None:
+            res.append(("appended-object/no-index", And(got.number_values == 0, got.data_size == 0,
+                                                        got.data_type is None)))
+        else:
+            res.append(("appended-object/number-of-values", got.number_values == eidx[0]))
+            res.append(("appended-object/data-size", got.data_size == eidx[1]))
+            res.append(("appended-object/data-type", types_equal(got.data_type, eidx[2])))
+        reads = st.ghost.get("index_reads", [])
+        if interp_.truth(And(header != INH.NO_DATA, header != INH.SAME)):
+            res.append(("full-index/read-once-right-after-the-header-in-segment-byte-order",
+                        len(reads) == 1 and interp_.truth(And(reads[0][1] == after_header, reads[0][2] == header))
+                        and reads[0][3] == order))
+        else:
+            res.append(("no-index-in-entry/no-index-read", len(reads) == 0))
+        pr = it["prop_reads"]
+        res.append(("properties/read-once-in-segment-byte-order", len(pr) == 1 and pr[0][1] == order))
+        if len(pr) == 1:
+            (ppos, _, tok) = pr[0]
+            if not interp_.truth(And(header != INH.NO_DATA, header != INH.SAME)):
+                res.append(("properties/right-after-the-header", ppos == after_header))
+            before = g["propmap"]
+            if tok is None:
+                res.append(("properties/none-for-this-entry-nothing-recorded",
+                            props is before and (before is None or len(before.stores) == 0)))
+            elif before is None:
+                res.append(("properties/first-entry-with-properties-starts-the-map",
+                            isinstance(props, dict) and len(props) == 1
+                            and interp_.truth(interp_.compare(ast.Eq, list(props.keys())[0], path))
+                            and list(props.values())[0] is tok))
+            else:
+                res.append(("properties/recorded-under-this-entry's-path",
+                            props is before and len(before.stores) == 1
+                            and interp_.truth(interp_.compare(ast.Eq, before.stores[0][0], path))
+                            and before.stores[0][1] is tok))
+        # earlier objects are not modified (the remembered object may be shared, never changed)
+        for (o, opath, ohas, onv, osize, otyp) in [prevmap.snap_of[id(kobj)]]:
+            res.append(("frame/remembered-object-unchanged", And(o.has_data == ohas, o.number_values == onv,
+                                                                 o.data_size == osize, o.data_type is otyp)))
+        return res
+
+    interp.loop_specs[("nptdms.tdms_segment:TdmsSegment.read_segment_objects", 0)] = LoopSpec(
+        inv, havoc={"properties": havoc_properties,
+                    "__locals__": ("object_path", "raw_data_index_header_bytes", "raw_data_index_header",
+                                   "existing_object_index", "existing_object", "previous_segment_obj", "segment_obj",
+                                   "object_properties")},
+        on_iter=on_iter, name="listed-objects")
+
+
+@harness("read_segment_objects_all_listed", ["tdms_segment.TdmsSegment.read_segment_objects",
+                                             "tdms_segment.TdmsSegment._reuse_previous_object",
+                                             "tdms_segment.TdmsSegment._new_segment_object"],
+         ["C02"], variants=[("first-segment", "first"), ("new-object-list", "newlist")], setup=_setup_loop,
+         level="proof",
+         note="segments that start a new object list: ANY number of listed objects (loop invariant); the reader's "
+              "per-path memory is a map of any size; carried-over lists stay with the shape-bounded harness "
+              "read_segment_objects and the unbounded step lemma update_existing_object")
+def _read_segment_objects_all_listed(vc):
+    st = vc.st
+    f = SFile("f")
+    pos0 = vc.int("pos0", lo=0)
+    f.pos = pos0
+    f.assume_present = True
+    toc = vc.int("toc", lo=0)
+    vc.assume((toc & L.TOC_META) != 0)
+    seg = vc.new("tdms_segment.TdmsSegment", position=vc.int("position", lo=0), toc_mask=toc,
+                 next_segment_pos=vc.int("next", lo=0), data_position=vc.int("datapos", lo=0), num_chunks=0,
+                 final_chunk_lengths_override=None, ordered_objects=None, object_index=None,
+                 segment_incomplete=False, has_daqmx_objects_cached=None, chunk_size_cached=None,
+                 data_objects_cached=None)
+    if vc.variant == "first":
+        prev_seg = None
+    else:
+        vc.assume((toc & L.TOC_NEW_OBJ_LIST) != 0)
+        prev_list = SlotList()
+        prev_seg = vc.new("tdms_segment.TdmsSegment", ordered_objects=prev_list, object_index=Tok("prev-index"),
+                          position=0, toc_mask=14, num_chunks=0)
+    big = vc.interp.truth((toc & L.TOC_BIG_ENDIAN) != 0)
+    count = uint(SBytes(f.content, pos0, 4), 0, 4, big)
+    vc.assume(f.size - pos0 >= 4)
+    prevmap = AbsPrevMap(vc)
+    st.ghost["loop"] = dict(file=f, big=big, prevmap=prevmap, list=None, propmap=None)
+    st.add_fact(ENTRY(0) == sym.z3int(pos0 + 4))                  # the first entry follows the object count
+    vc.cover("a-segment-with-many-listed-objects-is-within-the-precondition", count >= 1000)
+    out = vc.call_method(seg, "read_segment_objects", f, prevmap, None, prev_seg)
+    it = st.ghost.get("iter")
+    if out.kind == "exc":
+        # only one rejection is specified: 'same as before' for a path neither carried over nor remembered
+        ok = False
+        if out.raised(ValueError) and it is not None:
+            looked = [(p_, kn, o) for (p_, kn, o) in prevmap.lookups]
+            ok = len(looked) >= 1 and vc.interp.truth(And(it["header"] == INH.SAME, Not(looked[-1][1])))
+        vc.ensure("only-reuse-of-an-undefined-index-is-rejected", ok)
+        return
+    lst = seg.ordered_objects
+    vc.ensure("one-object-per-listed-entry", _list_len(lst) == count)
+    vc.ensure("cursor-after-the-last-entry", f.pos == _lift(ENTRY(sym.z3int(count))))
+    vc.ensure("chunks-computed-once-on-the-final-list",
+              st.ghost.get("calculated", 0) == 1 and st.ghost["calc_list_obj"] is lst)
+    vc.ensure("index/not-built-when-not-required", seg.object_index is None)
+    vc.ensure("returns-the-properties-map-or-none", out.value is None or isinstance(out.value, (dict, PropMap)))
+    if prev_seg is not None:
+        vc.ensure("frame/previous-segment-list-untouched",
+                  prev_seg.ordered_objects is prev_list and len(prev_list.stores) == 0
+                  and len(prev_list.appends) == 0, kind="frame")
